@@ -109,6 +109,9 @@ impl Client {
                     .collect::<Result<Vec<_>, _>>()
                     .map_err(|_| VaultError::CouldNotDeserializeVaultScratchPad(scratch_address))?;
 
+                // discard versions that are not owned and validly signed by the requested key
+                pads.retain(|pad| *pad.address() == scratch_address && pad.is_valid());
+
                 // take the latest versions
                 pads.sort_by_key(|s| s.count());
                 let max_version = pads.last().map(|p| p.count()).unwrap_or_else(|| {
@@ -139,6 +142,16 @@ impl Client {
                 return Err(e)?;
             }
         };
+
+        // never hand back a scratchpad that is not owned and validly signed by the requested key
+        if *pad.address() != scratch_address || !pad.is_valid() {
+            error!(
+                "Scratchpad fetched for {scratch_key:?} is not owned and signed by the vault key"
+            );
+            return Err(VaultError::CouldNotDeserializeVaultScratchPad(
+                scratch_address,
+            ));
+        }
 
         Ok(pad)
     }
